@@ -30,7 +30,7 @@ import (
 )
 
 type event struct {
-	Kind string `json:"ev"` // join joinlossy remove snapshot restart
+	Kind string `json:"ev"` // join joinlossy joindead remove snapshot restart
 	Node uint64 `json:"n"`
 	Via  uint64 `json:"via,omitempty"`
 }
@@ -41,6 +41,8 @@ func (e event) String() string {
 		return fmt.Sprintf("join(n%d via n%d)", e.Node, e.Via)
 	case "joinlossy":
 		return fmt.Sprintf("join(n%d via n%d, reply stream lost; then retried)", e.Node, e.Via)
+	case "joindead":
+		return fmt.Sprintf("join(n%d via [unreachable seed, n%d])", e.Node, e.Via)
 	case "remove":
 		return fmt.Sprintf("remove(n%d via n%d)", e.Node, e.Via)
 	}
@@ -81,11 +83,16 @@ func (w *wld) first() *sim.Violation {
 	return nil
 }
 
-func (w *wld) join(id, via uint64, lossy bool) (string, string) {
-	if w.Node(id) == nil {
-		w.Add(id, []string{world.ServerAddr(via)})
+func (w *wld) join(id, via uint64, lossy bool, deadSeedFirst bool) (string, string) {
+	seeds := []string{world.ServerAddr(via)}
+	if deadSeedFirst {
+		// the operator lists several seeds; the first one is not running
+		seeds = []string{world.ServerAddr(9), world.ServerAddr(via)}
 	}
-	w.Node(id).Join = []string{world.ServerAddr(via)}
+	if w.Node(id) == nil {
+		w.Add(id, seeds)
+	}
+	w.Node(id).Join = seeds
 	if err := w.Boot(id); err != nil {
 		return "boot-fails", fmt.Sprint(err)
 	}
@@ -128,9 +135,9 @@ func (w *wld) join(id, via uint64, lossy bool) (string, string) {
 
 func (w *wld) apply(e event) (string, string) {
 	switch e.Kind {
-	case "join", "joinlossy":
+	case "join", "joinlossy", "joindead":
 		w.counts.joins++
-		if k, d := w.join(e.Node, e.Via, e.Kind == "joinlossy"); k != "" {
+		if k, d := w.join(e.Node, e.Via, e.Kind == "joinlossy", e.Kind == "joindead"); k != "" {
 			return k, d
 		}
 	case "remove":
@@ -252,6 +259,9 @@ func enabled(w *wld) []event {
 				out = append(out, event{Kind: "join", Node: next, Via: via})
 				if via == live[0] {
 					out = append(out, event{Kind: "joinlossy", Node: next, Via: via})
+				}
+				if via == live[len(live)-1] {
+					out = append(out, event{Kind: "joindead", Node: next, Via: via})
 				}
 			}
 		}
